@@ -75,6 +75,16 @@ def pyIterO (O : Oracle) (v : V) : R (List V) :=
       | _ => raisePy .typeError
   | _ => pyIter v
 
+/-- `v[i]` where a mapping is searched with Python `==` (so `Decimal('0')`, `0.0` or `False`
+    keys answer to the literal index 0) -/
+def pyIndexO (O : Oracle) (v : V) (i : Int) : R V :=
+  match v with
+  | .map o kvs =>
+      match kvs.find? (fun kv => O.eq kv.1 (V.int i)) with
+      | some kv => .ok kv.2
+      | none => if o == .counter then .ok (.int 0) else raisePy .keyError
+  | _ => pyIndex v i
+
 /-- Entry point / context: nailed = methods compiled on the class (mixin path), otherwise
     the codec path.  `ntAsDict` is the option in force for named tuples at this point. -/
 structure Cx where
